@@ -37,10 +37,30 @@ CLAIMED.update({
         technique="Lean 4 proofs (loop characterisation, closed form over Rat, refinement of a memoised state machine to the pure function by invariant over operation sequences) + differential correspondence incl. call histories",
         ref="DESIGN.md §5 C07"),
     "C17": dict(
-        text="Proof: get_markdown is modelled as a structured report (buckets in first-appearance order, stable-sorted sections, rows, summary log); theorems C17_membership (listed programs = selected non-hidden, each once), C17_bucket + C17_bucket_contains (heading = cost_bucket(cost) and its interval contains the cost), C17_order (sorted inside each heading), C17_rows (rows = non-hidden taxa of the record with their spans / _imported_ and the assessed taxon cost), C17_total (stated cost = sum over ALL taxa), C17_summary (after any number of run_pipeline calls every announced count is the size of the selection then; model mirrors fix 248e606), C17_stdout. The real Markdown is parsed back into that structure and compared.",
-        note="Partial on one clause: non-decreasing cost ACROSS headings is exercised only (needs monotonicity of cost_bucket, not yet proved). Trusted: Lean kernel; hand model validated by correspondence; the harness's Markdown parser; math.log2 compared on a grid (float corner cases near 2^k, k >= 12, outside the envelope); rendering (slugs, gutter, wrapping) outside the model.",
+        text="Proof: get_markdown is modelled as a structured report (buckets in first-appearance order, stable-sorted sections, rows, summary log); theorems C17_membership (listed programs = selected non-hidden, each once), C17_bucket + C17_bucket_contains (heading = cost_bucket(cost) and its interval contains the cost), C17_order (sorted inside each heading), C17_rows (rows = non-hidden taxa of the record with their spans / _imported_ and the assessed taxon cost), C17_total (stated cost = sum over ALL taxa), C17_summary (after any number of run_pipeline calls every announced count is the size of the selection then; model mirrors fix 248e606), C17_stdout. C17_order_across / C17_order_across_assess prove non-decreasing cost across the whole listing (cost_bucket monotone, groups in strictly increasing bucket order). The real Markdown is parsed back into that structure and compared.",
+        note="Trusted: Lean kernel; hand model validated by correspondence; the harness's Markdown parser; math.log2 compared on a grid (float corner cases near 2^k, k >= 12, outside the envelope); rendering (slugs, gutter, wrapping) outside the model.",
         technique="Lean 4 proofs about a structured-report model (permutation/sortedness/invariant over the result log) + differential correspondence by parsing the real Markdown back",
         ref="DESIGN.md §5 C17"),
+    "C09": dict(
+        text="Proof: for every regex oracle, every taxonomy table and every call history, the model of Taxonomy.__init__ / is_literal / get_taxon_name_list (memo plus in-place aliasing of the literal lists) / to_taxa accumulation returns exactly `translate rows L` (C09_translation, C09_same_on_every_call, C09_exact: nothing else is ever in a translation), a literal row applies only to itself (C09_literal_only_itself) and the raw span bag is the multiset union (C09_bag). The oracle is filled by the harness with regex.fullmatch / Match.expand; the model mirrors fixes b6ea231/6ff4365.",
+        note="The regex engine is an oracle parameter. Labels contain no newline. The default table's well-formedness (tableOk) is evaluated at run time by the driver on the translator-regenerated table, not kernel-checked (the kernel needs minutes). Rows matched by no generated label are counted in the evidence.",
+        technique="Lean 4 refinement proof (state-machine invariant over call histories, all oracles) + oracle-based differential correspondence on the default and random custom taxonomies",
+        ref="DESIGN.md §5 C09"),
+    "C10": dict(
+        text="Proof: deduplicated_taxa is modelled loop by loop (Counter `-`/subtract/`+= Counter()`, POSIX commonpath, the two nested loops as a zipper); C10_no_invention, C10_unshared_kept, C10_covered_lost are theorems for ALL strictly sorted lists of clean names (any number of roots, any characters incl. punctuation sorting before '/') with positive bags, by reduction to a per-span integer program over an abstract forest order; C10_exec_forms ties the Bool forms the driver evaluates on the implementation's output to the Prop clauses. Model mirrors fix 5ca5ec8.",
+        note="Trusted: transcription of Counter and commonpath (validated differentially each run). Outside the hypotheses (unclean names, unsorted input, non-positive counts) behaviour is compared, not claimed.",
+        technique="Lean 4 proof (per-span integer program, zipper invariants) + bounded-exhaustive and random differential correspondence, clauses evaluated on the implementation's output",
+        ref="DESIGN.md §5 C10"),
+    "C13": dict(
+        text="Proof (partial): the text passes and the token loop of full_cleaning are modelled (token list as input, recorded from the real tokenizer); for all texts / all token lists: no blank line in the result, a COMMENT is emitted iff it is a hint (then normalised), hints are kept (first line included), exactly the docstring-like STRING statements become `pass`, the leading-comment pass removes only non-hint # lines, the blank-line and useless-pass passes are idempotent. Models mirror fixes e959b88 ff0b849 decc026 2488bc4 466f14f. One recorded finding (F20, main guard) with partial theorem + counterexample.",
+        note="Exercised only (depend on CPython's tokenizer/parser): valid Python, same AST modulo the four kinds of noise, noise invariance, whole-cleaning idempotence — checked on generated and corpus programs, a failure is a violation with the program as replay. Regex transcriptions validated bounded-exhaustively against the real engine.",
+        technique="Lean 4 proofs over a token-list model + bounded-exhaustive regex validation + differential/metamorphic correspondence with Cleanup",
+        ref="DESIGN.md §5 C13"),
+    "C18": dict(
+        text="Proof (partial): the option-record -> plan decisions of cli_collect / cli_recommend / cli_tag / list_programs are modelled as pure functions of the options and file-system facts; C18_taxonomy_precedence, C18_output_default_*, C18_format_by_extension, C18_db_lookup, C18_prefix, C18_stdout_mode, C18_tag, C18_listing hold for all option records and all file-system facts. Correspondence: the real entry points (paroxython.cli.main in-process and `python -m paroxython.cli`) over generated directories, databases and pipelines, compared with the library call the plan prescribes. Model mirrors fix 8fecc4f.",
+        note="docopt, glob, file I/O and the library calls themselves are exercised only. Mirrored rather than flagged: the `-db.json` fallback is dead code (second candidate is `D_db.json-db.json`), `collect -o x.txt` writes nothing, `tag -f xyz` gives TSV.",
+        technique="Lean 4 proofs of decision rules + differential correspondence through the real CLI entry points",
+        ref="DESIGN.md §5 C18"),
 })
 PENDING_REASON = "not claimed yet: model/theorems/correspondence for this property are still under construction (see DESIGN.md §5/§9)"
 
